@@ -54,7 +54,7 @@ func (s Bip32Sorter) Less(i, j int) bool {
 // little endian encodings of uint32 values, the first of which is the
 // masterkeyfingerprint and the remainder of which are the derivation path.
 func readBip32Derivation(path []byte) (uint32, []uint32, error) {
-	if len(path)%4 != 0 || len(path)/4-1 < 1 {
+	if len(path)%4 != 0 || len(path)/4-1 < 0 {
 		return 0, nil, ErrInvalidPsbtFormat
 	}
 
